@@ -121,6 +121,11 @@ def run(rep, tier):
     tus = TUS if tier == 'quick' else facts.library_tus()
     fb = facts.FactBase(tus)
     rep.covered(tus=len(tus), extracted=fb.extracted, functions=len(fb.funcs))
+    # rules that live with C03 / C13 and decide a clause of this property too (the resumed engine starts from a reset one and is stable)
+    from ..report import Renamed
+    from . import C03, C13
+    C03.audit_rules_c03(Renamed(rep, {'R03.13': 'R14.10'}), fb)
+    C13.stable_restored(rep, fb, 'R14.11')
 
     for wq, rq in PAIRS:
         w, r = fb.fn(wq), fb.fn(rq)
